@@ -539,8 +539,9 @@ class Engine(ExprMixin, CallMixin, BuiltinMixin, VerifyMixin):
                         st2 = ok
                         nv = core.lmk(c.ty, core.llen(c), z3.Store(core.larr(c), idx, self.adapt(v, c.ty.elem).t))
                     elif c.ty is PY:
-                        # item assignment on a dynamic object: opaque, no effect modelled
-                        raise OutsideSubset("item store on dynamic value")
+                        self.notes.append("item assignment on an opaque object (%s): no modelled effect" % ast.unparse(tgt.value))
+                        res.append(st2)
+                        continue
                     else:
                         raise OutsideSubset("subscript store on %r" % (c.ty,))
                     res.extend(self.assign(tgt.value, nv, st2, None, inplace=True))
@@ -574,11 +575,82 @@ class Engine(ExprMixin, CallMixin, BuiltinMixin, VerifyMixin):
         outs = []
         for st1, c in self.ev_cond(s.test, st):
             a, b = self.fork(st1, c, s.lineno, "if")
-            if a is not None:
-                outs.extend(self.exec_block(s.body, a))
-            if b is not None:
-                outs.extend(self.exec_block(s.orelse, b))
+            oa = self.exec_block(s.body, a) if a is not None else []
+            ob = self.exec_block(s.orelse, b) if b is not None else []
+            # join: when each branch has exactly one normal outcome the two are merged into one state
+            # (values become If(c, a, b); path facts of a branch are kept under its condition)
+            na = [o for o in oa if o.kind == "normal"]
+            nb = [o for o in ob if o.kind == "normal"]
+            if len(na) == 1 and len(nb) == 1 and not st1.dry and self.merge_enabled(s):
+                m = self.merge_states(st1, c, na[0].st, nb[0].st, s.lineno)
+                if m is not None:
+                    outs.extend(o for o in oa if o.kind != "normal")
+                    outs.extend(o for o in ob if o.kind != "normal")
+                    outs.append(Outcome("normal", m))
+                    continue
+            outs.extend(oa)
+            outs.extend(ob)
         return outs
+
+    def merge_enabled(self, s):
+        import os
+        if os.environ.get("PYVC_NOMERGE"):
+            return False
+        nm = getattr(self.contract, "no_merge", ()) if self.contract else ()
+        return s.lineno not in nm and "*" not in nm
+
+    def merge_states(self, st0, c, sa, sb, line):
+        n0 = len(st0.pc)
+        if sa.pc[:n0] != st0.pc and not all(x is y for x, y in zip(sa.pc[:n0], st0.pc)):
+            return None
+        if set(sa.env) != set(sb.env) or set(sa.glob) != set(sb.glob) or sa.alias != sb.alias or len(sa.lold) != len(sb.lold):
+            return None
+        m = st0.copy()
+        m.alias = dict(sa.alias)
+
+        def mv(va, vb):
+            if va is vb:
+                return va
+            if va.ty != vb.ty:
+                return None
+            if va.items is not None or vb.items is not None:
+                if isinstance(va.ty, Tup) and va.items is not None and vb.items is not None and va.ty is not STATIC:
+                    parts = [mv(x, y) for x, y in zip(va.items, vb.items)]
+                    return None if any(p is None for p in parts) else mk_tuple(parts)
+                return None
+            if va.t is None or vb.t is None:
+                return va if (va.t is None and vb.t is None and va.ty is NONE) else None
+            if va.t.eq(vb.t):
+                return va
+            nv = fresh(va.ty, "join")
+            # named join: the merged value is a fresh constant defined by cases
+            m.pc.append(z3.Implies(c, nv.t == va.t))
+            m.pc.append(z3.Implies(z3.Not(c), nv.t == vb.t))
+            return nv
+        for k in sa.env:
+            r = mv(sa.env[k], sb.env[k])
+            if r is None:
+                return None
+            m.env[k] = r
+        for k in sa.glob:
+            r = mv(sa.glob[k], sb.glob[k])
+            if r is None:
+                return None
+            m.glob[k] = r
+        for k in set(sa.heap) | set(sb.heap):
+            cls, f = k.split(".", 1)
+            ta, tb = self.heap_arr(sa, cls, f), self.heap_arr(sb, cls, f)
+            m.heap[k] = ta if ta.eq(tb) else z3.If(c, ta, tb)
+        ea, eb = sa.pc[n0:], sb.pc[n0:]
+        # the first extra fact of each branch is its branch condition
+        if ea:
+            m.pc.append(z3.Implies(c, z3.And(ea)) if len(ea) > 1 else z3.Implies(c, ea[0]))
+        if eb:
+            m.pc.append(z3.Implies(z3.Not(c), z3.And(eb)) if len(eb) > 1 else z3.Implies(z3.Not(c), eb[0]))
+        m.trace = list(st0.trace) + ["%s:join" % line]
+        if sa.written is not None:
+            m.written = sa.written
+        return m
 
     def st_Assert(self, s, st):
         if self.ghost_depth > 0:
@@ -746,6 +818,22 @@ class Engine(ExprMixin, CallMixin, BuiltinMixin, VerifyMixin):
 
     # -- loops -----------------------------------------------------------------------------------
     from .loops import st_For, st_While, run_loop, dry_run, havoc_written, check_invariants, _unrolled, _elem_form, _items_alias  # noqa: E402
+
+
+def _same_bindings(a, b):
+    if len(a.env) != len(b.env) or len(a.heap) != len(b.heap) or len(a.glob) != len(b.glob):
+        return False
+    for k, v in a.env.items():
+        if b.env.get(k) is not v:
+            return False
+    for k, v in a.heap.items():
+        w = b.heap.get(k)
+        if w is None or not (w is v or w.eq(v)):
+            return False
+    for k, v in a.glob.items():
+        if b.glob.get(k) is not v:
+            return False
+    return True
 
 
 def _to_load(node):
